@@ -11,7 +11,12 @@ package synct
 //	                      window  streaming, 200 kB stalled on the window, then Recv   → recvBufferReader (client)
 //	                      header  unary, silent server                                 → ClientStream.waitOnHeader
 //	                      recv    unary, server sent headers, then silent              → recvBufferReader (client)
+//	                      app     the application drives a stream it made with cc.NewStream itself (ops new/send/recv)
 //	rpc <timeout ns|0>    start the RPC (context.WithTimeout if > 0)  → `at:<where>` | client events
+//	new <c> <s> <h> <timeout>   (scenario app) cc.NewStream with StreamDesc{ClientStreams: c, ServerStreams: s} (0|1),
+//	                      to the handler that sends headers first (h=1) or stays silent (h=0) → ok | client events
+//	send <n>              (app) SendMsg of n bytes → snd@<t>:ok|eof|<code>, or `at:wquota` if it parks
+//	recv                  (app) RecvMsg → ret@<t>:<code>, or `at:header|recv` if it parks
 //	cancel                cancel the RPC's context                     → client events
 //	adv <ns>              sleep                                        → client events
 //	srv                   → server-side events since the last `srv`
@@ -64,6 +69,9 @@ type deadline struct {
 	rdone    chan struct{}
 	started  bool
 	rpcUsed  bool
+	stream   grpc.ClientStream
+	calldone chan struct{} // closed when the application's current SendMsg/RecvMsg has returned
+	finished bool          // RecvMsg returned the final status
 }
 
 func init() {
@@ -117,7 +125,7 @@ func (d *deadline) start(f []string) string {
 		return "bad-op"
 	}
 	switch f[1] {
-	case "pick", "squota", "wquota", "window", "header", "recv":
+	case "pick", "squota", "wquota", "window", "header", "recv", "app":
 	default:
 		return "bad-op"
 	}
@@ -202,6 +210,35 @@ func (d *deadline) dlRPCBody(ctx context.Context) error {
 	return err
 }
 
+//go:noinline
+func (d *deadline) dlRPCBodyNew(ctx context.Context, desc *grpc.StreamDesc, method string) (grpc.ClientStream, error) {
+	return d.cc.NewStream(ctx, desc, method)
+}
+
+//go:noinline
+func (d *deadline) dlRPCBodyCall(isSend bool, n int) {
+	if isSend {
+		buf := make([]byte, n)
+		switch err := d.stream.SendMsg(&buf); {
+		case err == nil:
+			d.cli.add("snd:ok")
+		case err == io.EOF:
+			d.cli.add("snd:eof")
+		default:
+			d.cli.add(fmt.Sprintf("snd:%d", uint32(status.Code(err))))
+		}
+		return
+	}
+	var out []byte
+	err := d.stream.RecvMsg(&out)
+	if err == nil {
+		d.cli.add("rcv:msg")
+		return
+	}
+	d.finished = true
+	d.cli.add(fmt.Sprintf("ret:%d", uint32(status.Code(err))))
+}
+
 // where reads the parking place of the RPC goroutine off its stack.
 func dlWhere() string {
 	buf := make([]byte, 1<<20)
@@ -236,7 +273,7 @@ func (d *deadline) Op(f []string) string {
 	}
 	switch f[0] {
 	case "rpc":
-		if len(f) != 2 || d.rpcUsed || kaAtoi(f[1]) < 0 {
+		if len(f) != 2 || d.rpcUsed || kaAtoi(f[1]) < 0 || d.scenario == "app" {
 			return "bad-op"
 		}
 		d.rpcUsed = true
@@ -253,6 +290,78 @@ func (d *deadline) Op(f []string) string {
 			defer close(d.rdone)
 			err := d.dlRPCBody(ctx)
 			d.cli.add(fmt.Sprintf("ret:%d", uint32(status.Code(err))))
+		}()
+		settle()
+		if ev := d.cli.take(); ev != "-" {
+			return dlRender(ev)
+		}
+		return "at:" + dlWhere()
+	case "new":
+		if len(f) != 5 || d.scenario != "app" || d.rpcUsed || kaAtoi(f[4]) < 0 {
+			return "bad-op"
+		}
+		for _, b := range f[1:4] {
+			if b != "0" && b != "1" {
+				return "bad-op"
+			}
+		}
+		d.rpcUsed = true
+		to := kaAtoi(f[4])
+		ctx, cancel := context.WithCancel(context.Background())
+		if to > 0 {
+			var c2 context.CancelFunc
+			ctx, c2 = context.WithTimeout(ctx, time.Duration(to))
+			_ = c2
+		}
+		d.rcancel = cancel
+		method := "/v/silent"
+		if f[3] == "1" {
+			method = "/v/hdr"
+		}
+		desc := &grpc.StreamDesc{ClientStreams: f[1] == "1", ServerStreams: f[2] == "1"}
+		done := make(chan struct{})
+		d.rdone = done
+		go func() {
+			defer close(done)
+			st, err := d.dlRPCBodyNew(ctx, desc, method)
+			if err != nil {
+				d.cli.add(fmt.Sprintf("ret:%d", uint32(status.Code(err))))
+				return
+			}
+			d.stream = st
+		}()
+		settle()
+		if d.stream == nil {
+			return dlRender(d.cli.take())
+		}
+		d.calldone = make(chan struct{})
+		close(d.calldone)
+		return "ok"
+	case "send", "recv":
+		if d.stream == nil || d.finished {
+			return "bad-op"
+		}
+		select {
+		case <-d.calldone:
+		default:
+			return "bad-op" // a call is still parked
+		}
+		var n int64
+		if f[0] == "send" {
+			if len(f) != 2 || kaAtoi(f[1]) < 0 {
+				return "bad-op"
+			}
+			n = kaAtoi(f[1])
+		} else if len(f) != 1 {
+			return "bad-op"
+		}
+		cd := make(chan struct{})
+		d.calldone = cd
+		d.rdone = cd
+		isSend := f[0] == "send"
+		go func() {
+			defer close(cd)
+			d.dlRPCBodyCall(isSend, int(n))
 		}()
 		settle()
 		if ev := d.cli.take(); ev != "-" {
